@@ -25,12 +25,13 @@ theorem generated_all_ops_known_c01 : taskSemKnown = true := by decide
 
 
 
+
 -- BEGIN PINS (written by bin/mkpins; do not edit by hand)
 /-- the Go functions this property's model and obligations were written against have exactly the
 pinned skeletons (SHA-256 prefix of the atom list) -/
 theorem pinned_skeletons_c01 :
     pinsOk
-    [("Scipipe.#decls", "7633eb8a74616d59"),
+    [("Scipipe.#decls", "08e57e98702ecd70"),
      ("Scipipe.FileIP_Exists", "1916709587285b24"),
      ("Scipipe.FileIP_FinalizePath", "cf8179072e56c7ba"),
      ("Scipipe.FileIP_TempFileExists", "b451ff234c47445a"),
